@@ -26,8 +26,8 @@ BUDGET = {"quick": 45, "thorough": 420}
 RULE = "index k -> (Timeout spec, placement, scheme, connect duration, response delay, second request with its own delays and optional override). Non-trivial = some phase took virtual time; distinct = distinct scenario tuple."
 ASSUMPTIONS = ["sends take no virtual time", "the default socket timeout (socket.getdefaulttimeout()) is None in the harness process"]
 REQUIRED_PROBES = {
-    "quick": ["connect_timeout_fired", "read_timeout_fired", "zero_budget_no_wait", "invalid_rejected", "request_override", "reused_connection", "https", "total_minus_elapsed", "second_request_fresh_clock"],
-    "thorough": ["connect_timeout_fired", "read_timeout_fired", "zero_budget_no_wait", "invalid_rejected", "request_override", "reused_connection", "https", "total_minus_elapsed", "second_request_fresh_clock"],
+    "quick": ["connect_timeout_fired", "read_timeout_fired", "zero_budget_no_wait", "invalid_rejected", "request_override", "reused_connection", "https", "total_minus_elapsed", "second_request_fresh_clock", "send_on_reused_under_own_timeout"],
+    "thorough": ["connect_timeout_fired", "read_timeout_fired", "zero_budget_no_wait", "invalid_rejected", "request_override", "reused_connection", "https", "total_minus_elapsed", "second_request_fresh_clock", "send_on_reused_under_own_timeout"],
 }
 
 VALS = ["unset", None, 0.5, 2, 10]
@@ -140,6 +140,8 @@ def run(sc: dict) -> Result:
         else:
             pool = urllib3.HTTPConnectionPool("h.test", 80, retries=False, **kw)
         have_conn = False  # an idle keep-alive connection is available
+        to_now: dict = {}  # socket id -> timeout currently set on it (kept across requests: a pooled socket keeps its last value)
+        ev_seen = 0
         for i, rq in enumerate(sc["requests"]):
             if rq.get("gap"):
                 w.advance(rq["gap"])
@@ -193,6 +195,23 @@ def run(sc: dict) -> Result:
                         obs_read = ("val", cur_to.get(e[2]))
                     recv_after_send += 1
             tag = f"request {i} ({'fresh' if fresh else 'reused'} connection, spec {spec}, d={d}, w={rq['w']})"
+            # ---- the request is written under a timeout of *this* request (urllib3 uses the connect timeout for sending), never under
+            #      whatever the previous request left on a pooled socket
+            foreign = None
+            for e in w.events[ev_seen:]:
+                if e[1] == "settimeout":
+                    to_now[e[2]] = e[3]
+                elif e[1] == "send" and e[0] >= n_ev0 and foreign is None:
+                    obs = to_now.get(e[2])
+                    allowed = [ct, rt] + ([reference(spec, 0)[1]] if fresh else [])
+                    if not any(_same(obs, a) for a in allowed):
+                        foreign = (obs,)
+                    elif not fresh:
+                        res.probes["send_on_reused_under_own_timeout"] += 1
+            ev_seen = len(w.events)
+            if foreign is not None:
+                res.bad("send_under_foreign_timeout", f"{tag}: the request was written while the socket's timeout was {foreign[0]}; this request configures connect={ct}, read={rt}")
+                break
             # ---- expectations
             if fresh:
                 if not obs_connect:
